@@ -128,15 +128,15 @@ _re_range = r"""
     (?>
         (?>
             (?>
-                R\[(?P<rr1>[\+-]?[1-9]\d*)\]C\[(?P<rc1>[\+-]?[1-9]\d*)\]
-                (?>:R\[(?P<rr2>[\+-]?[1-9]\d*)\]C\[(?P<rc2>[\+-]?[1-9]\d*)\])?
+                R\[(?P<rr1>[\+-]?[1-9][0-9]*)\]C\[(?P<rc1>[\+-]?[1-9][0-9]*)\]
+                (?>:R\[(?P<rr2>[\+-]?[1-9][0-9]*)\]C\[(?P<rc2>[\+-]?[1-9][0-9]*)\])?
             )
         |
-            R\[(?P<rr1>[\+-]?[1-9]\d*)\]C\[(?P<rc1>[\+-]?[1-9]\d*)\](?P<anchor>\#)?
+            R\[(?P<rr1>[\+-]?[1-9][0-9]*)\]C\[(?P<rc1>[\+-]?[1-9][0-9]*)\](?P<anchor>\#)?
         |
-            R\[(?P<rr1>[\+-]?[1-9]\d*)\]:R\[(?P<rr2>[\+-]?[1-9]\d*)\]
+            R\[(?P<rr1>[\+-]?[1-9][0-9]*)\]:R\[(?P<rr2>[\+-]?[1-9][0-9]*)\]
         |
-            C\[(?P<rc1>[\+-]?[1-9]\d*)\]:C\[(?P<rc2>[\+-]?[1-9]\d*)\]
+            C\[(?P<rc1>[\+-]?[1-9][0-9]*)\]:C\[(?P<rc2>[\+-]?[1-9][0-9]*)\]
         )
     |
         (?>
@@ -146,28 +146,28 @@ _re_range = r"""
             (?>
                 (?>
                     (?=\$?[A-Z1-9])
-                    \$?(?P<c1>[A-Z]{1,3})?\$?(?P<r1>[1-9]\d*)?
-                    (?>:\$?(?P<c2>[A-Z]{1,3}))(\$?(?P<r2>[1-9]\d*))?
+                    \$?(?P<c1>[A-Z]{1,3})?\$?(?P<r1>[1-9][0-9]*)?
+                    (?>:\$?(?P<c2>[A-Z]{1,3}))(\$?(?P<r2>[1-9][0-9]*))?
                 )
             |
-                \$?(?P<c1>[A-Z]{1,3})\$?(?P<r1>[1-9]\d*)(?P<anchor>\#)?
+                \$?(?P<c1>[A-Z]{1,3})\$?(?P<r1>[1-9][0-9]*)(?P<anchor>\#)?
             |
                 \$?(?P<c1>[A-Z]{1,3}):\$?(?P<c2>[A-Z]{1,3})
             |
-                \$?(?P<r1>[1-9]\d*):\$?(?P<r2>[1-9]\d*)
+                \$?(?P<r1>[1-9][0-9]*):\$?(?P<r2>[1-9][0-9]*)
             )(?![_\.\w])
         |
             (?>
                 (?>
-                    R(?P<r1>[1-9]\d*)C(?P<n1>[1-9]\d*)
-                    (?>:R(?P<r2>[1-9]\d*)C(?P<n2>[1-9]\d*))?
+                    R(?P<r1>[1-9][0-9]*)C(?P<n1>[1-9][0-9]*)
+                    (?>:R(?P<r2>[1-9][0-9]*)C(?P<n2>[1-9][0-9]*))?
                 )
             |
-                R(?P<r1>[1-9]\d*)C(?P<n1>[1-9]\d*)(?P<anchor>\#)?
+                R(?P<r1>[1-9][0-9]*)C(?P<n1>[1-9][0-9]*)(?P<anchor>\#)?
             |
-                R(?P<r1>[1-9]\d*):R(?P<r2>[1-9]\d*)
+                R(?P<r1>[1-9][0-9]*):R(?P<r2>[1-9][0-9]*)
             |
-                C(?P<n1>[1-9]\d*):C(?P<n2>[1-9]\d*)
+                C(?P<n1>[1-9][0-9]*):C(?P<n2>[1-9][0-9]*)
             )(?![_\.\w])
         |
             %s
